@@ -5,9 +5,9 @@ from vlib import lib, inputs
 
 # documented keyword options of validate()/is_valid() that are not plain booleans
 OPTION_VALUES = {
-    'at.tin': {'office': [None, 'Bruck Eisenstadt Oberwart', 'Wien 1/23']},
-    'de.handelsregisternummer': {'company_form': [None, 'GmbH', 'AG']},
-    'de.stnr': {'region': [None, 'Sachsen', 'Bayern', 'Berlin']},
+    'at.tin': {'office': [None, 'Bruck Eisenstadt Oberwart', 'Wien 1/23', 'Atlantis']},
+    'de.handelsregisternummer': {'company_form': [None, 'GmbH', 'AG', 'Quango']},
+    'de.stnr': {'region': [None, 'Sachsen', 'Bayern', 'Berlin', 'Atlantis']},   # the last one is no region: a validation error, never another exception
     'gs1_128': {'separator': ['', '\x1d', '|']},
     'mac': {'validate_manufacturer': [None, True, False]},
     'luhn': {'alphabet': ['0123456789', '0123456789ABCDEF']},
